@@ -807,13 +807,16 @@ LEVEL_TEXT = ('Machine-checked proofs (Coq) about an executable model of the pre
               '(matchAtomArg, strtol-based match, match(Heuristic_t), matchDomHeuPred, matchEdgePred) over byte strings, of '
               'SmodelsInput::readSymbols (classification, NodeTab, SymTab, deferred heuristics, filter) and of the external value coding; '
               'composed with C02\'s converter model into a model of the whole trip; proved over whole converter runs: every symTab_ name is a good name and a written / pending symbol, '
-              'every written symbol is of the shape the reader theorems assume, every _heuristic target name is a written symbol; proved for one-step programs end to end '
-              '(conv_write -> read_back): exactly one heuristic per heuristic on an occurring atom with the same fields on the first symbol carrying the name, others dropped, '
-              'edges up to an injective node renaming, no helper symbol shown under filter (several steps: per-step lemma proved, composition left to the differential check). The model is tied to the code by differential '
+              'every written symbol is of the shape the reader theorems assume, every _heuristic target name is a written symbol, every written external value is 0..3; proved end to end '
+              '(conv_write -> read_back) for programs of ANY number of steps by induction over the step list (c08_trip; reader invariant: its symbol table is the cumulative table of all '
+              'symbols written so far, node table only grows): per step exactly one heuristic per heuristic on an occurring atom with the same fields on the first symbol carrying the name '
+              '(of this or an earlier step), others dropped, edges of all steps up to ONE injective node renaming, externals unchanged, no helper symbol shown under filter; '
+              'non-incremental texts of several steps: refused at the second step unless the first line is an external (then read like an incremental text, tables kept) - c08_noninc_multistep. '
+              'The model is tied to the code by differential '
               'correspondence (the real converter+writer+reader pipeline with a recorder at the end; direct calls of the two matchers on '
               'generated strings) and by an independent python oracle on the implementation.')
 LEVEL_NOTE = ('Trusted: Coq kernel/vm_compute, extraction+driver (cross-checked), harness, translator, python oracle, ideal sprintf, libc '
-              'strtol/sscanf modelled per the C standard. See notes/C08.md for the theorem list (full vs _partial). The "in every answer set" '
+              'strtol/sscanf modelled per the C standard. See notes/C08.md for the theorem list (c08_trip is full for every number of steps; only the superseded c08_flush_shape_partial keeps a _partial name). The "in every answer set" '
               'part of the property rests on C02 (conditions are carried by atoms of the converted program); the oracle checks the '
               'defining rule of every auxiliary condition atom.')
 TECHNIQUE = 'Coq proofs about an executable model + differential correspondence + independent python oracle'
